@@ -60,7 +60,8 @@ pub fn with_env<R>(scratch: &PathBuf, f: impl FnOnce(&Env) -> R) -> R {
     })
 }
 
-/// The data sets: origins only, pairwise different, different sizes.
+/// The data sets: pairwise different, different sizes; set 4 is set 0 plus
+/// a router key (a change of router keys only).
 pub fn sets() -> Vec<DataSet> {
     let o = data::origin_universe();
     let mk = |idx: &[usize]| {
@@ -68,20 +69,39 @@ pub fn sets() -> Vec<DataSet> {
         for i in idx { ds.origins.insert(o[*i]); }
         ds
     };
-    vec![mk(&[0]), mk(&[0, 1]), mk(&[2]), mk(&[0, 1, 2])]
+    let mut with_key = mk(&[0]);
+    with_key.keys.insert(data::key_universe()[0].clone());
+    vec![mk(&[0]), mk(&[0, 1]), mk(&[2]), mk(&[0, 1, 2]), with_key]
 }
+
+fn fmt_key(k: &rpki::rtr::payload::RouterKey) -> String { format!("key|{}|{}", k.asn, k.key_identifier) }
 
 pub fn fmt_set(ds: &DataSet) -> BTreeSet<String> {
     ds.origins.iter().map(|o| format!(
         "{}|{}/{}|{}", o.asn, o.prefix.addr(), o.prefix.prefix_len(), o.prefix.resolved_max_len()
-    )).collect()
+    )).chain(ds.keys.iter().map(fmt_key)).collect()
 }
 
+/// Items of a JSON list (route origins and router keys in the forms the
+/// payload and the delta documents use).
 fn json_items(v: &Value) -> Option<BTreeSet<String>> {
     let mut res = BTreeSet::new();
     for item in v.as_array()? {
-        res.insert(format!("{}|{}|{}", item["asn"].as_str()?, item["prefix"].as_str()?, item["maxLength"]));
+        if let Some(prefix) = item["prefix"].as_str() {
+            res.insert(format!("{}|{}|{}", item["asn"].as_str()?, prefix, item["maxLength"]));
+        }
+        else {
+            let ski = item["SKI"].as_str().or(item["keyIdentifier"].as_str())?;
+            res.insert(format!("key|{}|{}", item["asn"].as_str()?, ski));
+        }
     }
+    Some(res)
+}
+
+/// All items of a `/json` document.
+fn json_doc_items(b: &Value) -> Option<BTreeSet<String>> {
+    let mut res = json_items(&b["roas"])?;
+    if !b["routerKeys"].is_null() { res.extend(json_items(&b["routerKeys"])?); }
     Some(res)
 }
 
@@ -135,17 +155,23 @@ fn install_initial(env: &Env, history: &SharedHistory, notify: &rpki::rtr::serve
 //------------ C15 -----------------------------------------------------------
 
 #[derive(Clone, Debug)]
-struct Sc15 { name: &'static str, initial: Vec<usize>, seq: Vec<usize> }
+struct Sc15 { name: &'static str, initial: Vec<usize>, seq: Vec<usize>,
+    /// history-size of this scenario (None: 4)
+    keep: Option<usize> }
 
 fn scenarios15(thorough: bool) -> Vec<Sc15> {
     let mut res = vec![
-        Sc15 { name: "first-update", initial: vec![], seq: vec![0, 1] },
-        Sc15 { name: "change", initial: vec![0], seq: vec![1] },
-        Sc15 { name: "change-change", initial: vec![0], seq: vec![1, 2] },
+        Sc15 { name: "first-update", initial: vec![], seq: vec![0, 1], keep: None },
+        Sc15 { name: "change", initial: vec![0], seq: vec![1], keep: None },
+        Sc15 { name: "change-change", initial: vec![0], seq: vec![1, 2], keep: None },
+        Sc15 { name: "change:router-key-only", initial: vec![0], seq: vec![4], keep: None },
+        Sc15 { name: "change:history-size-0", initial: vec![0], seq: vec![1], keep: Some(0) },
     ];
     if thorough {
-        res.push(Sc15 { name: "same-change", initial: vec![0, 1], seq: vec![1, 3] });
-        res.push(Sc15 { name: "three", initial: vec![0], seq: vec![1, 2, 3] });
+        res.push(Sc15 { name: "change-change:history-size-0", initial: vec![0], seq: vec![1, 2], keep: Some(0) });
+        res.push(Sc15 { name: "change:history-size-1", initial: vec![0, 1], seq: vec![2], keep: Some(1) });
+        res.push(Sc15 { name: "same-change", initial: vec![0, 1], seq: vec![1, 3], keep: None });
+        res.push(Sc15 { name: "three", initial: vec![0], seq: vec![1, 2, 3], keep: None });
     }
     res
 }
@@ -157,6 +183,7 @@ pub fn collect_set(mut set: impl PayloadSet) -> Result<BTreeSet<String>, String>
     for p in items {
         match p {
             Payload::Origin(o) => { if !ds.origins.insert(o) { return Err("duplicate item in full set".into()) } }
+            Payload::RouterKey(k) => { if !ds.keys.insert(k) { return Err("duplicate item in full set".into()) } }
             _ => return Err("unexpected payload type".into()),
         }
     }
@@ -166,9 +193,12 @@ pub fn collect_set(mut set: impl PayloadSet) -> Result<BTreeSet<String>, String>
 fn apply_actions(base: &BTreeSet<String>, actions: &[(Payload, Action)]) -> Result<BTreeSet<String>, String> {
     let mut res = base.clone();
     for (p, a) in actions {
-        let Payload::Origin(o) = p else { return Err("unexpected payload type".into()) };
         let mut one = DataSet::default();
-        one.origins.insert(*o);
+        match p {
+            Payload::Origin(o) => { one.origins.insert(*o); }
+            Payload::RouterKey(k) => { one.keys.insert(k.clone()); }
+            _ => return Err("unexpected payload type".into()),
+        }
         let s = fmt_set(&one).into_iter().next().unwrap();
         match a {
             Action::Announce => if !res.insert(s.clone()) { return Err(format!("announce of present {s}")) },
@@ -180,6 +210,9 @@ fn apply_actions(base: &BTreeSet<String>, actions: &[(Payload, Action)]) -> Resu
 
 fn body15(sched: &Arc<Sched>, sc: &Sc15, scratch: &PathBuf) -> (Execution, Verdict) {
     with_env(scratch, |env| {
+        let mut config = env.config.clone();
+        if let Some(keep) = sc.keep { config.history_size = keep; }
+        let env = &Env { config, engine: env.engine };
         let history = SharedHistory::from_config(&env.config);
         let httpd = Arc::new(Httpd::new(&env.config, history.clone()));
         install_initial(env, &history, &httpd.notify, &sc.initial);
@@ -262,7 +295,7 @@ fn body15(sched: &Arc<Sched>, sc: &Sc15, scratch: &PathBuf) -> (Execution, Verdi
                             let etag = a.header("etag").unwrap_or("").trim_matches('"').to_string();
                             let serial: Option<u32> = etag.rsplit('-').next().and_then(|s| s.parse().ok());
                             let body: Option<Value> = serde_json::from_slice(&a.body).ok();
-                            match (serial.and_then(|s| map.get(&s)), body.as_ref().and_then(|b| json_items(&b["roas"]))) {
+                            match (serial.and_then(|s| map.get(&s)), body.as_ref().and_then(|b| json_doc_items(b))) {
                                 (Some(want), Some(got)) => {
                                     if *want != got {
                                         err(format!("http-etag-body-mismatch: /json with ETag serial {} carries {:?}, data of that serial is {:?}", serial.unwrap(), got, want));
@@ -366,6 +399,8 @@ fn scenarios16(thorough: bool) -> Vec<Sc16> {
         res.push(Sc16 { name: match name { "etag" => "same-change:etag", "date" => "same-change:date", _ => "same-change:both" },
             initial: vec![0], seq: vec![0, 1], use_etag, use_date });
     }
+    res.push(Sc16 { name: "router-key-only-change:etag", initial: vec![0], seq: vec![4], use_etag: true, use_date: false });
+    res.push(Sc16 { name: "router-key-only-change:both", initial: vec![0], seq: vec![4], use_etag: true, use_date: true });
     if thorough {
         res.push(Sc16 { name: "change-change:both", initial: vec![0], seq: vec![1, 2], use_etag: true, use_date: true });
         res.push(Sc16 { name: "change-change:date", initial: vec![0], seq: vec![1, 2], use_etag: false, use_date: true });
@@ -428,7 +463,7 @@ fn body16(sched: &Arc<Sched>, sc: &Sc16, scratch: &PathBuf) -> (Execution, Verdi
                         }
                         200 => {
                             let body: Option<Value> = serde_json::from_slice(&a.body).ok();
-                            match (now_serial.and_then(|s| map.get(&s)), body.as_ref().and_then(|b| json_items(&b["roas"]))) {
+                            match (now_serial.and_then(|s| map.get(&s)), body.as_ref().and_then(|b| json_doc_items(b))) {
                                 (Some(want), Some(got)) => {
                                     if *want != got {
                                         err(format!("http-etag-body-mismatch: ETag serial {} with data {:?}, expected {:?}", now_serial.unwrap(), got, want));
